@@ -30,7 +30,7 @@ PURE_CALLS = {"len", "max", "min", "round", "ceil", "floor", "abs", "int", "floa
               "cursor_up", "cursor_down", "cursor_forward", "cursor_backward", "mul", "truediv", "floordiv", "gt", "lt"}
 PURE_METHODS = {"lower", "upper", "strip", "lstrip", "rstrip", "startswith", "endswith", "decode", "encode", "split", "partition", "rpartition", "join",
                 "format", "get", "keys", "values", "items", "copy", "count", "index", "rindex", "replace", "groups", "group", "tell", "get_padded_size",
-                "resolve", "to_exact", "_get_exact_dimensions_"}
+                "resolve", "to_exact", "_get_exact_dimensions_", "_get_render_size", "_get_minimal_render_size", "tobytes"}
 
 
 def is_pure(e) -> bool:
@@ -117,6 +117,39 @@ def _stmt_of(node):
     return node
 
 
+def _ends(stmts) -> bool:
+    """The statement list cannot complete normally (its last statement leaves: return/raise/continue/break, or an if/else both of
+    whose branches do)."""
+    if not stmts:
+        return False
+    last = stmts[-1]
+    if isinstance(last, (ast.Return, ast.Raise, ast.Continue, ast.Break)):
+        return True
+    if isinstance(last, ast.If):
+        return _ends(last.body) and _ends(last.orelse)
+    if isinstance(last, (ast.With, ast.AsyncWith)):
+        return _ends(last.body)
+    return False
+
+
+def _live_stores(x):
+    """Stores of statement x that can still be in effect when control continues after x (stores in branches that always leave
+    the enclosing block are dropped)."""
+    if isinstance(x, ast.If):
+        out = []
+        if not _ends(x.body):
+            for y in x.body:
+                out.extend(_live_stores(y))
+        if not _ends(x.orelse):
+            for y in x.orelse:
+                out.extend(_live_stores(y))
+        out.extend((t, x) for t, _ in stores_in(ast.Expr(value=x.test)))
+        return out
+    if isinstance(x, (ast.With, ast.AsyncWith)) and _ends(x.body):
+        return []
+    return stores_in(x)
+
+
 def reaching_definition(fn, name, use, allow_calls=False):
     """Flow-sensitive: the plain assignment `name = <pure expr>` that is the only definition reaching `use`, found by walking
     backwards over the preceding siblings of the use, then of its enclosing statements. The first statement met that stores
@@ -142,7 +175,7 @@ def reaching_definition(fn, name, use, allow_calls=False):
             else:
                 return None
         for x in reversed(block[:i]):
-            stores = [t for t, _ in stores_in(x) if isinstance(t, ast.Name) and t.id == name]
+            stores = [t for t, _ in _live_stores(x) if isinstance(t, ast.Name) and t.id == name]
             if stores:
                 if isinstance(x, ast.Assign) and len(x.targets) == 1 and isinstance(x.targets[0], ast.Name) and x.targets[0].id == name:
                     found = x
@@ -156,6 +189,15 @@ def reaching_definition(fn, name, use, allow_calls=False):
             par = getattr(cur, "_p", None)
             if isinstance(par, ast.ExceptHandler):
                 par = getattr(par, "_p", None)
+            if isinstance(par, (ast.With, ast.AsyncWith)):
+                hit = [it for it in par.items if isinstance(it.optional_vars, ast.Name) and it.optional_vars.id == name]
+                if hit:
+                    if not allow_calls:
+                        return None
+                    found = ast.Assign(targets=[hit[0].optional_vars], value=hit[0].context_expr)
+                    break
+            if isinstance(par, (ast.For, ast.AsyncFor)) and any(isinstance(x, ast.Name) and x.id == name for x in ast.walk(par.target)):
+                return None
             if isinstance(par, (ast.For, ast.While, ast.AsyncFor)):
                 loops.append(par)
             if isinstance(par, (ast.FunctionDef, ast.AsyncFunctionDef, ast.Lambda, ast.ClassDef)) and par is not fn:
@@ -165,7 +207,7 @@ def reaching_definition(fn, name, use, allow_calls=False):
         return None
     ops = {n.id for n in ast.walk(found.value) if isinstance(n, ast.Name)}
     for x in passed:
-        for t, _ in stores_in(x):
+        for t, _ in _live_stores(x):
             if isinstance(t, ast.Name) and t.id in ops:
                 return None
     # the statement containing the use itself must not rebind operands before the use (approximation: not at all)
@@ -179,11 +221,13 @@ def reaching_definition(fn, name, use, allow_calls=False):
     return found.value
 
 
-def definition(fn, name, use=None, allow_calls=False):
+def definition(fn, name, use=None, allow_calls=False, opaque=()):
     """The unique pure defining expression of local `name` in fn, or None."""
     b, params = _bindings(fn)
-    if name in params or name not in b:
+    if name not in b:
         return None
+    if name in params:
+        return reaching_definition(fn, name, use, allow_calls) if use is not None else None
     if len(b[name]) != 1:
         return reaching_definition(fn, name, use, allow_calls) if use is not None else None
     t, st = b[name][0]
@@ -192,36 +236,68 @@ def definition(fn, name, use=None, allow_calls=False):
             v = st.value
         elif isinstance(st.targets[0], (ast.Tuple, ast.List)):
             v = _unpack_component(st.targets[0], st.value, name)
+            if v is None and UNPACK_AS_SUBSCRIPT and not isinstance(st.value, (ast.Tuple, ast.List)):
+                idx = [i for i, x in enumerate(st.targets[0].elts) if isinstance(x, ast.Name) and x.id == name]
+                if len(idx) == 1 and not any(isinstance(x, ast.Starred) for x in st.targets[0].elts):
+                    v = ast.Subscript(value=st.value, slice=ast.Constant(value=idx[0]), ctx=ast.Load())
         else:
             v = None
         if v is not None and (allow_calls or is_pure(v)):
             # operands must not be rebound after the definition (conservative: bound at most once in the function)
-            multi = {n.id for n in ast.walk(v) if isinstance(n, ast.Name) and n.id in b and len(b[n.id]) > 1}
+            multi = {n.id for n in ast.walk(v) if isinstance(n, ast.Name) and n.id in b and len(b[n.id]) > 1 and n.id not in opaque}
             if multi and not _stable_until(st, use, multi):
                 return None
             return v
-    if isinstance(st, ast.AnnAssign) and st.value is not None and st.target is t and is_pure(st.value):
+    if isinstance(st, ast.AnnAssign) and st.value is not None and st.target is t and (allow_calls or is_pure(st.value)):
         return st.value
+    if isinstance(st, (ast.With, ast.AsyncWith)) and allow_calls:
+        for it in st.items:
+            if it.optional_vars is t:
+                return it.context_expr
     return None
 
 
-def expand(fn, e, depth: int = 5, keep=()):
-    """Copy of e with single-assignment pure locals replaced by their definitions."""
+UNPACK_AS_SUBSCRIPT = True    # `w, h = V` makes w == V[0], h == V[1] (V pure)
+
+
+def expand(fn, e, depth: int = 5, keep=(), use=None, allow_calls=False):
+    """Copy of e with single-assignment pure locals replaced by their definitions. With allow_calls (see trace()) definitions
+    containing arbitrary calls are substituted too: the result then describes *where a value comes from* (a backward slice
+    as one expression), not an expression that could replace the original."""
     if fn is None or depth <= 0:
         return e
-    use = e if hasattr(e, "_p") else None
+    if use is None:
+        use = e if hasattr(e, "_p") else None
 
-    class T(ast.NodeTransformer):
-        def visit_Name(self, n):
-            if isinstance(n.ctx, ast.Load) and n.id not in keep:
-                d = definition(fn, n.id, use if use is not None else (n if hasattr(n, "_p") else None))
-                if d is not None:
-                    return expand(fn, clone(d), depth - 1, keep)
+    def ex(n, depth):
+        if isinstance(n, list):
+            return [ex(x, depth) for x in n]
+        if not isinstance(n, ast.AST):
             return n
+        if isinstance(n, ast.Lambda):
+            return clone(n)
+        if isinstance(n, ast.Name) and isinstance(n.ctx, ast.Load) and n.id not in keep and depth > 0:
+            # the site of a name that belongs to the function's own tree is the name itself (its value *there*); names of
+            # synthesised expressions (expected-value texts) are read at the site of the comparison
+            site = n if hasattr(n, "_p") else use
+            d = definition(fn, n.id, site, allow_calls, keep)
+            if d is not None:
+                return ex(d, depth - 1)
+        new = type(n)()
+        for f in n._fields:
+            if hasattr(n, f):
+                setattr(new, f, ex(getattr(n, f), depth))
+        for a_ in ("lineno", "col_offset", "end_lineno", "end_col_offset"):
+            if hasattr(n, a_):
+                setattr(new, a_, getattr(n, a_))
+        return new
+    return ex(e, depth)
 
-        def visit_Lambda(self, n):
-            return n
-    return T().visit(clone(e))
+
+def trace(fn, e, depth: int = 6, use=None, keep=()):
+    """Backward value slice of e as one expression (definitions with calls included; `with E as v` makes v == E).
+    Names in `keep` stay as they are and are treated as opaque symbols (not checked for rebinding)."""
+    return expand(fn, e, depth=depth, use=use, allow_calls=True, keep=keep)
 
 
 # ---------------------------------------------------------------------------------------------------------------
@@ -402,15 +478,17 @@ def _parse(x):
 
 def same(fn, a, b, keep=()) -> bool:
     a, b = _parse(a), _parse(b)
+    use = a if hasattr(a, "_p") else (b if hasattr(b, "_p") else None)
     try:
-        return cx(expand(fn, a, keep=keep)) == cx(expand(fn, b, keep=keep))
+        return cx(expand(fn, a, keep=keep, use=use)) == cx(expand(fn, b, keep=keep, use=use))
     except RecursionError:
         return False
 
 
 def same_bool(fn, a, b) -> bool:
     a, b = _parse(a), _parse(b)
-    return _bool(expand(fn, a)) == _bool(expand(fn, b))
+    use = a if hasattr(a, "_p") else (b if hasattr(b, "_p") else None)
+    return _bool(expand(fn, a, use=use)) == _bool(expand(fn, b, use=use))
 
 
 def literals(fn, n):
